@@ -284,6 +284,12 @@ def run(ctx):
                 detail.append((e.node.lineno, "loop skips part of the owner's list", T.show(T.alpha(it[4]))[:60]))
         elif it[0] in ("attr", "phi"):
             src = it
+            # canonical form of a loop over a filtered copy: the filter sits in the guards after the loop entry
+            gi = list(e.guard).index(lp[0])
+            inner = [g for g in e.guard[gi + 1:] if g[0] not in ("loop", "while", "try", "except")]
+            if inner:
+                okr = False
+                detail.append((e.node.lineno, "loop skips part of the owner's list", [T.show(T.alpha(c))[:60] for c in inner]))
         elif it[0] == "call" and it[1] in (("m", "copy"), "list") and it[2]:
             src = it[2][0]
         else:
@@ -350,7 +356,7 @@ def run(ctx):
             verts = T.sym(gm.params[0])
             a = e.value[2]
             ok = len(a) >= 3 and a[1] == T.idx(verts, T.idx(be, n)) and a[2] == T.idx(verts, T.idx(be, T.add(n, T.num(1)))) and \
-                lp[1][2] == T.call("range", (T.num(0), T.sub(T.call("len", (be,)), T.num(1))))
+                lp[1][2] == T.call("range", (T.sub(T.call("len", (be,)), T.num(1)),))
             arr_term = lp[0][2]
     rm = [e for e in sg.events if e.kind == "call" and isinstance(e.fname, tuple) and e.fname[1] == "append" and e.loops()
           and any(c[0] == "not" and c[1][0] == "in" and c[1][2][0] == "call" and c[1][2][1] == "list" for c in e.conds())]
